@@ -92,6 +92,47 @@ def oracle(ctx):
             want = 'ok [' + ' '.join(t for v in vals for t in so[v][4:-1].split(' ') if t) + ']'
             if a != want:
                 res.oracle_failures.append(dict(op=op, input=vals, impl_output=core.dec_line(a), oracle_expectation=core.dec_line(want)))
+    # through the real converters: every key the documented tables read as a *plain list* (lookup_all_strv) keeps backslash
+    # sequences literally and splits at white space only; every *argument-style* key (lookup_all_args) decodes them. The
+    # kind of each key comes from the frozen specification (spec/keys.json), the words from the specification splitters.
+    import canon, gen_units as G
+    spec_keys = json.load(open(os.path.join(core.VERIF, 'spec', 'keys.json')))
+    kinds = {}
+    for fn, kind, sec, key in spec_keys.get('lookup_kinds', []):
+        if kind in ('lookup_all_strv', 'lookup_all_args'):
+            kinds.setdefault((key, kind), set()).add(fn)
+    FN_TY = {'from_container_unit': 'container', 'from_kube_unit': 'kube', 'from_pod_unit': 'pod', 'from_build_unit': 'build', 'from_volume_unit': 'volume',
+             'from_network_unit': 'network', 'from_image_unit': 'image', 'handle_user_mappings': 'container', 'handle_user_remap': 'container',
+             'handle_log_opt': 'container', 'handle_podman_args': 'container', 'get_base_podman_command': 'container'}
+    value = 'pl\\x41in "q r" es\\x2dc t\\tab'
+    conv_cases = []
+    for (key, kind), fns in sorted(kinds.items()):
+        for fn in sorted(fns):
+            ty = FN_TY.get(fn)
+            if ty is None or key not in ctx.tables['supported'][G.SUP[ty]] or key in ('Mount', 'RemapUid', 'RemapGid'):
+                continue
+            extra = 'RemapUsers=manual\n' if key in ('UIDMap', 'GIDMap') and False else ''
+            text = '[' + G.SEC[ty] + ']\n' + ''.join(b + '\n' for b in G.BASE[ty]) + extra + f'{key}={value}\n'
+            conv_cases.append((ty, key, kind, text))
+    cops = [f'convert\t0\t0\t{hx("/q/k." + ty)}\t{hx(text)}' for ty, key, kind, text in conv_cases]
+    cio = ctx.impl(cops)
+    words_strv = [unhx(t) for t in ctx.model(['spec_split_strv\t' + hx(value)])[0][4:-1].split(' ') if t]
+    words_args = [unhx(t) for t in ctx.model(['spec_split_args\t' + hx(value)])[0][4:-1].split(' ') if t]
+    for (ty, key, kind, text), op, a in zip(conv_cases, cops, cio):
+        r = canon.parse_convert(a)[0]
+        if r[0] != 'svc':
+            continue
+        res.oracle_evals += 1
+        execs = [v for k, v in r[2].get('Service', []) if k.startswith('ExecStart')]
+        argv = []
+        for e in execs:
+            b = ctx.model(['spec_split_exec\t' + hx(e)])[0]
+            argv += [unhx(t) for t in b[4:-1].split(' ') if t] if b.startswith('ok [') else []
+        want = words_strv if kind == 'lookup_all_strv' else words_args
+        missing = [w for w in want if not any(w.lower() in x.lower() for x in argv)]
+        if missing:
+            res.oracle_failures.append(dict(op=op, input=text, impl_output=str(argv)[:600],
+                                            oracle_expectation=f'{key} is read as {"a plain list (backslashes literal)" if kind == "lookup_all_strv" else "argument words (escapes decoded)"}: the words {want} reach the command; missing {missing}'))
     # known finding KF-C05-1: re-confirm on its recorded example
     for kid, k in known.items():
         ex = json.load(open(os.path.join(core.VERIF, 'known_findings.d', k['example'])))
